@@ -77,9 +77,11 @@ deriving DecidableEq, Repr
 /-- `ProcessCallback` (internal/process.go) -/
 def processCallback (t : CbType) (exec commit : Nat) (c : Contract) : PcOut :=
   let raw := c.run exec
-  let wrote := raw == .retOk                       -- err == nil → writeFn()
-  let charged := min c.gas exec                    -- deferred: ConsumeGas(GasConsumedToLimit)
   let pastLimit := c.gas > exec
+  -- err == nil && !IsPastLimit → writeFn()   (the second conjunct since fix 7bc25b2; before it a
+  -- contract that swallowed its own out-of-gas panic and returned nil kept its writes)
+  let wrote := raw == .retOk && !decide pastLimit
+  let charged := min c.gas exec                    -- deferred: ConsumeGas(GasConsumedToLimit)
   let isPanic := raw == .panicked || raw == .panickedOog
   -- deferred function: recover
   if isPanic && t == .send then ⟨if raw == .panickedOog then .panicOog else .panic, wrote, charged⟩
